@@ -21,14 +21,19 @@ def _point(spec, model):
     if sorted(l) != l:
         l = [1.0 * (i + 1) for i in range(n)]
     pygaps.Adsorbate('pgv_c11_ads', store=True, saturation_pressure=101325.0, molar_mass=28.0)
-    iso = pygaps.PointIsotherm(pressure=p, loading=l, branch='ads', material='m', adsorbate='pgv_c11_ads', temperature=300,
+    h = spec.get('history')
+    sp, sl, sb, brkw = list(p), list(l), 'ads', {}
+    if h == 'origin_point_measured':
+        sp, sl = [0.0] + sp, [0.0] + sl
+    elif h == 'desorption_branch_stored_high_to_low':
+        sp, sl, sb, brkw = sp[::-1], sl[::-1], 'des', {'branch': 'des'}
+    iso = pygaps.PointIsotherm(pressure=sp, loading=sl, branch=sb, material='m', adsorbate='pgv_c11_ads', temperature=300,
                                pressure_mode='absolute', pressure_unit='bar', loading_basis='molar', loading_unit='mmol',
                                material_basis='mass', material_unit='g', temperature_unit='K')
     kw = spec['unit_kw']
     fp = {'Pa': 1e5, 'kPa': 100.0}.get(kw.get('pressure_unit'), 1.0)
     fl = {'mol': 1e-3}.get(kw.get('loading_unit'), 1.0)
-    h = spec.get('history')
-    if h:
+    if h and h.startswith('used+'):
         iso.spreading_pressure_at((p[0] + p[-1]) / 2)
         if 'convert_loading' in h:
             iso.convert_loading(unit_to='mol')
@@ -54,7 +59,7 @@ def _point(spec, model):
     pts = [x for x in P_ if x < q]
     want = integrate.quad(lambda x: interp(x) / x, 0, q, points=pts or None, limit=200)[0]
     try:
-        got = float(iso.spreading_pressure_at(q, interp_fill=spec['fill'], **kw))
+        got = float(iso.spreading_pressure_at(q, interp_fill=spec['fill'], **kw, **brkw))
         out = 'return'
     except CalculationError:
         got, out = None, 'CalculationError'
@@ -62,7 +67,7 @@ def _point(spec, model):
         got, out = None, f"{type(exc).__name__}: {exc}"
     if w == 'above' and spec['fill'] is None:
         return {'confirmed': out != 'CalculationError', 'observed': out, 'expected': 'CalculationError'}
-    return {'confirmed': out != 'return' or not close(got, want, rel=1e-6), 'observed': got if out == 'return' else out, 'expected': want,
+    return {'confirmed': out != 'return' or not (got == got and close(got, want, rel=1e-6)), 'observed': got if out == 'return' else out, 'expected': want,
             'data': {'p': p, 'l': l, 'q': q}}
 
 
